@@ -90,8 +90,8 @@ def applyOp (listener : Bool) (x : LS) (o : Op) (sk : Bool) : Option LS :=
     | none => none
   | "set" =>
     if sk then some x else
-    -- `SetMaxCount` clamps its argument to `maxCapacity` (`setMaxCount_clamped`)
-    match step x.s.cap (.setMax (if o.n > M then M else o.n)) with
+    -- (the model's `setMax` clamps its argument to `maxCapacity` like `SetMaxCount`)
+    match step x.s.cap (.setMax o.n) with
     | some c => some { x with s := ⟨c, x.s.async ++ [.adjust x.sets]⟩, sets := x.sets + 1 }
     | none => none
   | _ => if sk then some x else none
@@ -154,10 +154,56 @@ def capJson (c : Cap) : Json :=
     ("closed", Json.arr ((sortN c.closed).map (fun (n : Nat) => Json.num n)).toArray),
     ("realCap", Json.num c.realCap), ("effCap", Json.num c.effCap)]
 
+/-- `child` cases of the sem harness (history executed sequentially in a child process, observed: did the
+process die with a panic). Model: each operation settled; a spawned grow whose guard `d ≤ cur` fails is where
+Go's `Weighted.Release` panics (`guards_enabled`). -/
+def childModelPanics (cap0 : Int) (ops : List Op) : Bool := Id.run do
+  let mut c := newCap cap0
+  let mut nextAcq : Nat := 0
+  let mut sets : Nat := 0
+  for o in ops do
+    match o.op with
+    | "acq" =>
+      match step c (.acquire nextAcq) with
+      | some c' => c := acceptAll c'
+      | none => pure ()
+      nextAcq := nextAcq + 1
+    | "set" =>
+      match step c (.setMax o.n) with
+      | some c' =>
+        c := c'
+        match step c (.adjust sets) with
+        | some c'' => c := acceptAll c''
+        | none => return true
+        sets := sets + 1
+      | none => pure ()
+    | _ => pure ()
+  return false
+
+def childJudge (input child : Json) : Except String Verdict := do
+  let cap0 := optInt input "cap0"
+  let opsJ ← getArr input "ops"
+  let ops ← opsJ.toList.mapM parseOp
+  let inc := optStr child "inconclusive"
+  if inc != "" then
+    return { agree := true, spec := true, tags := ["child", "inconclusive:" ++ inc], nontrivial := false }
+  let died := optBool child "died"
+  let msg := optStr child "panic"
+  let relMore := msg == "semaphore: released more than held"
+  let modelPanics := childModelPanics cap0 ops
+  let sig := if !died then "" else if relMore then "panic:semaphore-released-more-than-held" else "panic:child:" ++ msg
+  pure { agree := (modelPanics == died) && (!died || relMore), spec := !died, sig := sig,
+         note := if died then s!"the process died: panic: {msg} (model: grow guard fails = {modelPanics})" else "",
+         tags := ["child"] ++ (if died then ["child-died"] else ["child-survived"]), nontrivial := true,
+         expected := Json.mkObj [("modelGuardFails", modelPanics)] }
+
 def semJudge (listener : Bool) : Judge := liftJudge fun input obs => do
   match obsPanic obs with
   | some m => pure { agree := false, spec := false, sig := "panic-or-hang", note := m }
   | none =>
+  match obs.getObjVal? "child" with
+  | .ok child => childJudge input child
+  | .error _ =>
   let cap0 := optInt input "cap0"
   let opsJ ← getArr input "ops"
   let ops ← opsJ.toList.mapM parseOp
@@ -210,21 +256,20 @@ def semJudge (listener : Bool) : Judge := liftJudge fun input obs => do
         -- somebody waits for a unit (meaningful when quiet: then every queued waiter is a unit acquirer)
         let unitWaiting := if listener then (!sn.inInner) else !sn.waiters.isEmpty
         let backlogObs : Int := (countOps "dial" : Int) - (sn.granted.headD 0 : Int)
-        let mut sig := acc.sig
-        if sig == "" && !sn.settled then sig := "hang:goroutines-not-parked"
-        if sig == "" && sn.cur > M then sig := "semaphore:cur-above-size"
-        if sig == "" && quietNow && unitsHeld > acc.capNow then sig := "cap:more-open-than-cap"
-        if sig == "" && quietNow && sn.cur != M - acc.capNow + unitsHeld then sig := "setmax:not-applied"
-        -- a shrink still parked although the units in use fit into the new cap: it would have been granted
-        -- (`parked_shrink_means_over_cap`); e.g. an adjustment that can never be applied
+        -- the property on the observation: `Spec.obsViolation` (accepted for every settled model state:
+        -- `spec_accepts_model`) and, for the listener harnesses, `Spec.intervalOK`
+        -- (`interval_spec_accepts_model`)
         let parked : Nat := if listener then sn.adjParked else countOps "set" - sn.setDone.length
-        if sig == "" && sn.settled && parked > 0 && unitsHeld ≤ acc.capNow then sig := "setmax:parked-shrink-not-applied"
-        if sig == "" && listener && quietNow && acc.prevQuiet && !acc.setSince && (sn.maxOpen : Int) > acc.capNow then
+        let o : Obs := { cur := sn.cur, unitsHeld := unitsHeld, parked := parked, capNow := acc.capNow,
+                         unitWaiting := if listener then (!sn.inInner && backlogObs > 0) else unitWaiting,
+                         settled := sn.settled }
+        let mut sig := acc.sig
+        if sig == "" then
+          match obsViolation o with
+          | some v => sig := v
+          | none => pure ()
+        if sig == "" && listener && quietNow && acc.prevQuiet && !acc.setSince && !intervalOK sn.maxOpen acc.capNow then
           sig := "cap:accepted-above-cap"
-        if sig == "" && listener && quietNow && backlogObs > 0 && openNow < acc.capNow then
-          sig := "liveness:free-capacity-not-used"
-        if sig == "" && !listener && quietNow && unitWaiting && unitsHeld < acc.capNow then
-          sig := "liveness:free-capacity-not-used"
         acc := { acc with sig := sig, prevQuiet := quietNow, setSince := false }
     i := i + 1
   -- established connections stay usable
